@@ -9,6 +9,7 @@ import (
 	"verif/harness"
 	"verif/impl"
 	"verif/model"
+	"verif/snap"
 	"verif/univ"
 )
 
@@ -47,6 +48,23 @@ type Emb struct {
 type EmbP struct {
 	*Meta
 	Score float64
+}
+
+// meta has a lower-case (unexported) type name; its exported fields are still promoted.
+type meta struct {
+	Rev float64
+	By  string
+}
+
+type EmbL struct {
+	meta
+	Title string
+	Subs  []embLP
+}
+
+type embLP struct {
+	*meta
+	N float64
 }
 
 func leafVals() []Leaf {
@@ -257,6 +275,10 @@ func checkC18(r *harness.Run) harness.Coverage {
 				Label string
 			}{4, "m"},
 			map[string]interface{}{"Name": "generic", "ID": 5.0},
+			EmbL{meta: meta{3, "z"}, Title: "t", Subs: []embLP{{&meta{1, "p"}, 1}, {nil, 2}}},
+			&EmbL{meta: meta{4, ""}, Title: "", Subs: []embLP{}},
+			// generic containers holding typed slices
+			map[string]interface{}{"Name": "mixed", "Kids": []interface{}{[]string{"a", "b"}, []float64{1, 2}, []interface{}{[]string{"c"}}}, "ID": []string{"x", "y"}},
 			struct {
 				Name string
 				ID   float64
@@ -266,8 +288,15 @@ func checkC18(r *harness.Run) harness.Coverage {
 		// same field; access *through the name of the embedded struct* is not part of the JSON form and is left out
 		embExprs := [][2]string{}
 		for _, e := range []string{"ID", "Name", "Label", "Kids[*].ID", "Kids[*].Label", "Kids[?Score > `1`].Label", "Kids[?ID].Score", "ID || Name", "[ID, Name, Label]", "{i: ID, n: Name}", "Kids[0].ID", "Kids[1].ID", "Kids[-1].Label",
-			"length(Kids)", "Kids[].ID", "Kids[*].[ID, Score]", "not_null(ID, Name)", "Kids[::-1][*].ID", "Kids[1]", "Kids[1].[ID]", "Kids[*].Score"} {
+			"length(Kids)", "Kids[].ID", "Kids[*].[ID, Score]", "not_null(ID, Name)", "Kids[::-1][*].ID", "Kids[1]", "Kids[1].[ID]", "Kids[*].Score",
+			"Rev", "By", "Title", "Subs[*].Rev", "Subs[*].By", "Subs[?N > `1`].Rev", "Subs[0].By", "Subs[1].Rev", "[Rev, By, Title]", "Subs[].N", "Rev || Title",
+			"Kids[0]", "Kids[2][0]", "Kids[]", "Kids[*][0]", "ID[0]"} {
 			embExprs = append(embExprs, [2]string{e, e}, [2]string{lowerFirst(univ.Lx(e)), e})
+		}
+		// built-ins over these documents: only "no panic, no modification" is demanded (marked by an empty twin)
+		for _, e := range []string{"contains(Kids, ID)", "contains(Kids[2], Kids[0])", "contains(Kids, `[\"a\",\"b\"]`)", "length(Kids[0])", "contains(@, Kids)", "sort_by(Kids, &ID)", "max_by(Subs, &N)",
+			"map(&@, Kids)", "reverse(Kids)", "to_array(Kids[0])", "merge(@, @)", "keys(@)", "values(@)", "not_null(Kids[1], ID)", "join(',', ID)", "contains(ID, 'x')", "type(Kids)", "to_string(@)"} {
+			embExprs = append(embExprs, [2]string{e, ""})
 		}
 		for _, pair := range embExprs {
 			text := pair[0]
@@ -282,9 +311,26 @@ func checkC18(r *harness.Run) harness.Coverage {
 						continue // generic maps are matched by exact key; capitalisation applies to struct fields only
 					}
 					want, werr, wpn := impl.SearchOnce(pair[1], gen)
+					before := snap.Roots{{Name: "doc", V: d}}.Hash()
 					got, gerr, gpn := impl.Search(jp, d)
 					extraPairs++
+					if after := (snap.Roots{{Name: "doc", V: d}}).Hash(); after != before {
+						js, _ := json.Marshal(gen)
+						r.Report(harness.Violation{Kind: "doc-mutated", Signature: "go-document-modified:" + text,
+							Input:    map[string]interface{}{"expression": text, "document_go_type": fmt.Sprintf("%T", d), "document_json_before": string(js)},
+							Expected: "Search does not modify a Go-typed document either", Observed: "deep snapshot of the Go value differs after the call: " + strings.Join(snap.Lines2(d), "; ")})
+						break
+					}
 					if wpn != nil {
+						continue
+					}
+					if pair[1] == "" {
+						if gpn != nil {
+							js, _ := json.Marshal(gen)
+							r.Report(harness.Violation{Kind: "panic", Signature: "search-panic:" + gpn.Site + ":" + gpn.Class,
+								Input: map[string]interface{}{"expression": text, "document_go_type": fmt.Sprintf("%T", d), "document_json": string(js)}, Expected: "a value or an error", Observed: gpn.Error(), Site: gpn.Site})
+							break
+						}
 						continue
 					}
 					ok := gpn == nil && (gerr != nil) == (werr != nil) && (gerr != nil || model.DeepEqual(generic(got), generic(want)))
